@@ -13,3 +13,7 @@ for qn,u in list(U.REGISTRY.items()):
         f,t,n=U.bmc_falsify(u); print('   BMC tried',t,'notes',n)
         for x in f: print('    ',x['obligation'],x['native'])
         rf,tr=U.random_falsify(u,1,200); print('   RANDOM tried',tr, rf and rf['native'])
+for l in U.LEMMAS:
+    if names and not any(n in l.name for n in names): continue
+    rs,_=U.prove_lemma(l)
+    for o in rs: print('   %-60s %-8s %.3f %s %s'%(o.name,o.verdict,o.seconds,o.backend,o.reason[:300]))
